@@ -66,10 +66,54 @@ def plan(tier, seed):
     for fn in ("water_trajectory.xyz", "water_trajectory.pdb", "example.sdf", "caffeine.mol2", "peroxide_opt.fchk"):
         for t in go.MANY_FORMATS:
             cases.append({"src": fn, "srcfmt": None, "explicit_in": False, "target": t, "opts": {"c": False, "m": True, "i": False, "o": True}})
+    # numerically pathological but syntactically valid inputs: the CLI's floating-point trapping may turn them into errors
+    # (admitted), but never into a reported success with other content
+    for name in sorted(pathological_sources()):
+        for t in ("xyz", "sdf", "pdb", "mol2"):
+            for m in (False, True):
+                cases.append({"text": name, "target": t, "opts": {"c": False, "m": m, "i": False, "o": False}})
     # generated wavefunction objects written to fchk first (conversions that need -c)
     for k in range(4 if tier == "quick" else 30):
         cases.append({"gen": k, "seed": seed, "target": ["molden", "wfn", "wfx", "molekel"][k % 4], "opts": {"c": bool(k % 2), "m": False, "i": False, "o": False}})
     return cases
+
+
+MOL2_FRAME = """\
+@<TRIPOS>MOLECULE
+water {i}
+    3     0     0     0
+SMALL
+USER_CHARGES
+
+@<TRIPOS>ATOM
+      1 O1    0.0000    0.0000    {z} O.3     1 HOH  -0.8340
+      2 H1    0.7570    0.5860    0.0000 H       1 HOH   0.4170
+      3 H2   -0.7570    0.5860    0.0000 H       1 HOH   0.4170
+"""
+XYZ_FRAME = "3\nwater {i}\nO 0.0 0.0 {z}\nH 0.757 0.586 0.0\nH -0.757 0.586 0.0\n"
+SDF_FRAME = """\
+water {i}
+  generated
+
+  3  0  0  0  0  0  0  0  0  0999 V2000
+    0.0000    0.0000{z:>10s} O   0  0  0  0  0  0  0  0  0  0  0  0
+    0.7570    0.5860    0.0000 H   0  0  0  0  0  0  0  0  0  0  0  0
+   -0.7570    0.5860    0.0000 H   0  0  0  0  0  0  0  0  0  0  0  0
+M  END
+$$$$
+"""
+
+
+def pathological_sources():
+    """{file name: text}: trajectories in which one coordinate of one frame is huge (overflows on unit conversion) or NaN."""
+    out = {}
+    for tag, bad in (("huge", "1.0e308"), ("nan", "nan"), ("inf", "inf")):
+        for nframe, ibad in ((1, 0), (4, 2)):
+            z = lambda i: bad if i == ibad else f"0.{i}000"  # noqa: E731
+            out[f"{tag}{nframe}.mol2"] = "".join(MOL2_FRAME.format(i=i, z=z(i)) for i in range(nframe))
+            out[f"{tag}{nframe}.xyz"] = "".join(XYZ_FRAME.format(i=i, z=z(i)) for i in range(nframe))
+            out[f"{tag}{nframe}.sdf"] = "".join(SDF_FRAME.format(i=i, z=z(i)) for i in range(nframe))
+    return out
 
 
 def _v(key, msg, **kw):
@@ -99,7 +143,7 @@ def run_case(case):
 
     root = tempfile.mkdtemp(prefix="vf_c18_")
     viols = []
-    counters = {"cli_runs": 0, "api_runs": 0, "convert_runs": 0, "byte_comparisons": 0, "cli_exit0": 0, "cli_errors": 0}
+    counters = {"cli_runs": 0, "api_runs": 0, "convert_runs": 0, "byte_comparisons": 0, "cli_exit0": 0, "cli_errors": 0, "cli_fp_traps": 0}
     try:
         opts = case["opts"]
         if "gen" in case:
@@ -117,6 +161,12 @@ def run_case(case):
                     return {"status": "skip"}
             srcfmt, explicit_in = "fchk", False
             label = f"generated fchk ({feats['contraction']})"
+        elif "text" in case:
+            src = os.path.join(root, case["text"])
+            with open(src, "w") as fh:
+                fh.write(pathological_sources()[case["text"]])
+            srcfmt, explicit_in = None, False
+            label = f"pathological {case['text']}"
         else:
             src = os.path.join(bootstrap.DATA_DIR, case["src"])
             srcfmt, explicit_in = case["srcfmt"], case["explicit_in"]
@@ -190,7 +240,9 @@ def run_case(case):
                 viols.append(_v("cli-error-silent", f"{tag}: exit {r.returncode} with empty stderr"))
             if api_outcome == "ok":
                 # admitted: the CLI traps floating-point errors (np.seterr) which the API does not
-                if "FloatingPointError" not in r.stderr:
+                if "FloatingPointError" in r.stderr:
+                    counters["cli_fp_traps"] += 1
+                else:
                     viols.append(_v("cli-failure-api-success", f"{tag}: CLI exit {r.returncode} but the API calls succeed; stderr: {r.stderr[-300:]}"))
             else:
                 if api_outcome not in r.stderr:
